@@ -247,7 +247,7 @@ def bounded_job(eng, key, budget, seed):
         if t is None and anns.get(nm) is not None:
             t = parse_type(_ast.unparse(anns[nm]))
         params[nm] = type_str(t) if t is not None else "any"
-    ensures = {k: v for k, v in c.ensures.items() if "iter_" not in v}
+    ensures = {k: v for k, v in c.ensures.items() if "iter_" not in v and (c.rt_trace or not eng.mentions_trace(v))}
     wrap = []
     text = " ".join(ensures.values())
     for m_ in eng.repo.modules.values():
@@ -260,8 +260,10 @@ def bounded_job(eng, key, budget, seed):
             "wrap": wrap, "budget": budget, "seed": seed, "classes": classes, "raises": list(c.raises)}
 
 
-def run_bounded(eng, pid, key, budget, seed):
+def run_bounded(eng, pid, key, budget, seed, stubs=None):
     job = bounded_job(eng, key, budget, seed)
+    if stubs:
+        job["stubs"] = stubs
     try:
         p = run_runtime("bounded.py", [], timeout=600, input_json=job)
         res = json.loads(p.stdout.strip().splitlines()[-1]) if p.stdout.strip() else {"fault": p.stderr[-600:]}
